@@ -6,6 +6,10 @@
 (*    C  render data created        R  a frame rendered with the data       *)
 (*    F  _finalize_render_data_ invoked for the data                         *)
 (*    H  the data handed to _handle_interrupted_draw_ (a use of the data)    *)
+(*    E  the operation has ended (returned or raised) and the caller has     *)
+(*       dropped the iterator, if any; the render data is still referenced   *)
+(*       (by the harness) - so an F before E is a PROMPT finalization, an F  *)
+(*       after E one that only garbage collection of the data performs       *)
 (*    Q  quiescence: operation over, references dropped, gc ran             *)
 (* with a failure injected into the k-th render, into size validation, or   *)
 (* as a KeyboardInterrupt while a frame is being written.                   *)
@@ -55,7 +59,7 @@ Valid(o) == o.fail \in {"exc", "stop", "interrupt", "kbrender"} /\ o.op = "draw_
 Ops == {o \in OpsStill \cup OpsAnim \cup OpsIter : Valid(o)}
 
 \* The event program of an operation.  `kept` = the caller keeps ownership of the data.
-Prog(o) ==
+ProgCore(o) ==
   CASE o.op \in {"render", "str"} -> <<"C", "R", "F", "Q">>
     [] o.op = "draw_still" ->
          IF o.fail = "validation" THEN <<"C", "F", "Q">>
@@ -78,6 +82,15 @@ Prog(o) ==
          ELSE <<"C">> \o Rep("R", o.k) \o <<"Qkept">>
     [] o.op \in {"owned_close", "owned_drop"} -> <<"C">> \o Rep("R", o.k) \o <<"Qkept">>
 
+\* Finalization is prompt (before E) everywhere except where draw() rejects the size: there
+\* the data is only finalized when it is garbage-collected (documented deviation, DESIGN 2.5).
+Prog(o) ==
+  LET core == ProgCore(o) n == Len(core) IN
+  IF o.fail = "validation" THEN <<"C", "E", "F", "Q">>
+  \* an abandoned, unfinished iterator is only closed by the (cyclic) garbage collector
+  ELSE IF o.op = "iter_drop" THEN SubSeq(core, 1, n - 2) \o <<"E", "F", "Q">>
+  ELSE SubSeq(core, 1, n - 1) \o <<"E", core[n]>>
+
 (* ---- lifecycle automaton ---- *)
 LStep(st, e) ==
   \* st = <<lifecycle, error>> ; returns the next pair
@@ -93,6 +106,7 @@ LStep(st, e) ==
          [] e = "F" -> IF lc = "live" THEN <<"final", "">>
                        ELSE IF lc = "final" THEN <<lc, "finalized more than once">>
                        ELSE <<lc, "finalize without data">>
+         [] e = "E" -> st
          [] e = "Q" -> IF lc = "final" THEN <<"none", "">> ELSE <<lc, "not finalized at quiescence">>
          [] e = "Qkept" -> IF lc = "live" THEN <<"none", "">>
                            ELSE <<lc, "caller-owned data was finalized by the library">>
